@@ -127,6 +127,21 @@ func zzFallocate(fd int, mode uint32, off int64, length int64) error {
 
 func zzCleanupFiles() {}
 
+// zzFstat: st_size and st_blocks (512-byte units) as the presence map implies
+func zzFstat(fd int, st *syscall.Stat_t) error {
+	f := zzFiles[uintptr(fd)]
+	if f == nil {
+		return syscall.EBADF
+	}
+	var blocks int64
+	for b := 0; b < f.blocks; b++ {
+		blocks += zzIteInt64(f.present[b], 8, 0)
+	}
+	st.Blocks = blocks
+	st.Size = int64(f.blocks) * 4096
+	return nil
+}
+
 var _ types.DiffDisk = (*zzFile)(nil)
 
 // coalesce helpers (A-sfold): unit x / block b of dst takes src's when src holds it
